@@ -1,7 +1,985 @@
-//! C01 — not implemented yet.
-use vmon::report::Args;
+//! C01 — every commit is atomic; versions form a dense, monotone history.
+//!
+//! E-CRASH: for a scenario (random pre-history of 2–6 public write operations on a `memory://`
+//! table + one final write operation) the final operation is dry-run once on a restored copy of
+//! the pre-state to count its M mutating storage calls and to record the post-state; then it is
+//! re-run from the pre-state once per crash point (every k in 1..=M × {effect lost, effect applied
+//! + reply lost}; for the external-manifest handler also every external-store write). After each
+//! crash a different process with fresh caches observes the table. Oracle: the observation equals
+//! exactly the pre-state if the commit point was not applied and exactly the post-state if it was.
+//! E-HIST part: after every step of the (fault free) pre-history the version set must be dense,
+//! a successful write must have produced exactly latest+1, detached commits must not be visible.
 
-pub fn run(_args: &Args) -> i32 {
-    eprintln!("HARNESS-ERROR C01 not implemented");
-    2
+use serde_json::json;
+use std::collections::{BTreeMap, BTreeSet};
+use std::sync::atomic::{AtomicU64, Ordering};
+use std::sync::Mutex;
+use vmon::prng::{fnv, Rng};
+use vmon::report::{Args, Report};
+use vmon::store::{classify_path, Event, Fault, FaultPlan, Kind};
+use vmon::table::IdAlloc;
+
+use crate::common::*;
+use crate::ops::{self, Op, Shape};
+
+const URI: &str = "memory://t";
+const BASE: &str = "t";
+const OP_TIMEOUT_S: u64 = 40;
+
+#[derive(Clone, Debug)]
+pub enum CrashPoint {
+    Store { k: u64, fault: Fault },
+    Ext { op: ExtOp, nth: u32, fault: Fault },
+}
+
+impl CrashPoint {
+    fn fault(&self) -> Fault {
+        match self {
+            CrashPoint::Store { fault, .. } | CrashPoint::Ext { fault, .. } => *fault,
+        }
+    }
+    fn fault_name(&self) -> &'static str {
+        match self.fault() {
+            Fault::FailBefore => "fail_before",
+            Fault::LostReply => "lost_reply",
+        }
+    }
+}
+
+#[derive(Debug, Clone, PartialEq)]
+pub struct Verdict {
+    pub sig: String,
+    pub what: String,
+}
+
+/// The deciding oracle, as a pure function of the observations (so that `--selftest` can feed it
+/// corrupted observations).
+pub fn judge(
+    pre: &Obs,
+    post: &Obs,
+    obs: &Obs,
+    commit_applied: bool,
+    res_ok: bool,
+    detached: bool,
+) -> Option<Verdict> {
+    if res_ok && !commit_applied {
+        return Some(Verdict {
+            sig: "ok-returned-without-commit-point".into(),
+            what: "the operation returned Ok although no create of its manifest was applied".into(),
+        });
+    }
+    let (expected, other, exp_name) = if detached || !commit_applied {
+        (pre, post, "pre")
+    } else {
+        (post, pre, "post")
+    };
+    if obs == expected {
+        return None;
+    }
+    if obs == other && pre != post {
+        return Some(Verdict {
+            sig: if exp_name == "pre" {
+                "post-state-visible-without-commit-point".into()
+            } else {
+                "pre-state-visible-after-commit-point".into()
+            },
+            what: format!(
+                "a fresh reader sees the {} state but the store log says the commit point was {}",
+                if exp_name == "pre" { "post" } else { "pre" },
+                if commit_applied { "applied" } else { "not applied" }
+            ),
+        });
+    }
+    // neither: classify the tear
+    let class = match (obs, expected) {
+        (Obs::Absent, _) => "table-vanished",
+        (_, Obs::Absent) => "table-appeared-partially",
+        (
+            Obs::Table {
+                versions: v,
+                raw_final: r,
+                latest_id: l,
+                opened: o,
+                ..
+            },
+            Obs::Table {
+                versions: ev,
+                raw_final: er,
+                latest_id: el,
+                opened: eo,
+                ..
+            },
+        ) => {
+            if v != ev || r != er {
+                "version-set-neither-pre-nor-post"
+            } else if l != el || o != eo {
+                "latest-neither-pre-nor-post"
+            } else {
+                "content-neither-pre-nor-post"
+            }
+        }
+    };
+    Some(Verdict {
+        sig: format!("torn-{class}"),
+        what: format!(
+            "after the crash a fresh reader sees neither the pre-state nor the post-state; vs expected ({exp_name}): {}",
+            obs.diff(expected)
+        ),
+    })
+}
+
+fn dense(versions: &[u64]) -> bool {
+    versions.iter().enumerate().all(|(i, v)| *v == i as u64 + 1)
+}
+
+/// Invariants of a single fault-free observation.
+fn plain_invariants(obs: &Obs) -> Option<Verdict> {
+    if let Obs::Table {
+        versions,
+        latest_id,
+        opened,
+        raw_final,
+        ..
+    } = obs
+    {
+        let n = versions.len() as u64;
+        if !dense(versions) {
+            return Some(Verdict {
+                sig: "versions-not-dense".into(),
+                what: format!("versions() = {versions:?} is not 1..N"),
+            });
+        }
+        if *latest_id != n || *opened != n {
+            return Some(Verdict {
+                sig: "latest-is-not-max-version".into(),
+                what: format!("versions() = 1..{n} but latest_version_id = {latest_id}, open() gave {opened}"),
+            });
+        }
+        if raw_final != versions {
+            return Some(Verdict {
+                sig: "listing-disagrees-with-versions".into(),
+                what: format!("raw _versions listing {raw_final:?} vs versions() {versions:?}"),
+            });
+        }
+    }
+    None
+}
+
+/// (t, description) of the commit point of `version` in the logs, if it was applied.
+fn commit_point(
+    kind: HandlerKind,
+    events: &[Event],
+    ext_events: &[ExtEvent],
+    version: u64,
+    detached: bool,
+) -> Option<(u64, String)> {
+    if detached {
+        return events
+            .iter()
+            .find(|e| {
+                e.applied
+                    && e.kind.is_mutating()
+                    && e.kind != Kind::Delete
+                    && matches!(vers_file(BASE, e.dest()), Some(VersFile::Detached(_)))
+            })
+            .map(|e| (e.t, e.brief()));
+    }
+    if kind == HandlerKind::External {
+        return ext_events
+            .iter()
+            .find(|e| e.op == ExtOp::PutIfNotExists && e.applied && e.version == version && e.base == BASE)
+            .map(|e| (e.t, e.brief()));
+    }
+    events
+        .iter()
+        .find(|e| {
+            e.applied
+                && e.kind.is_mutating()
+                && e.kind != Kind::Delete
+                && final_manifest_version(BASE, e.dest()) == Some(version)
+        })
+        .map(|e| (e.t, e.brief()))
+}
+
+/// Referenced objects that did not exist (per pre-listing + store log) before logical time `t`.
+fn refs_not_existing_before(
+    refs: &Refs,
+    pre_paths: &BTreeSet<String>,
+    events: &[Event],
+    t: u64,
+    ext_commit: bool,
+) -> Vec<String> {
+    // for the external handler `t` is the world clock at the external put: store events with
+    // e.t < t completed before it. For store commit events the event itself has e.t == t.
+    let _ = ext_commit;
+    let created_before = |path: &str| {
+        pre_paths.contains(path)
+            || events.iter().any(|e| {
+                e.applied && e.kind.is_mutating() && e.kind != Kind::Delete && e.dest() == path && e.t < t
+            })
+    };
+    let mut bad = vec![];
+    for f in &refs.files {
+        if !created_before(f) {
+            bad.push(f.clone());
+        }
+    }
+    for p in &refs.index_prefixes {
+        let ok = pre_paths.iter().any(|x| x.starts_with(p.as_str()))
+            || events.iter().any(|e| {
+                e.applied
+                    && e.kind.is_mutating()
+                    && e.kind != Kind::Delete
+                    && e.dest().starts_with(p.as_str())
+                    && e.t < t
+            });
+        if !ok {
+            bad.push(p.clone());
+        }
+    }
+    bad
+}
+
+struct Ctx<'a> {
+    report: &'a Report,
+    seed: u64,
+    matrix: Mutex<BTreeMap<String, u64>>,
+    m_hist: Mutex<BTreeMap<u64, u64>>,
+    only_kind: Option<String>,
+    only_handler: Option<String>,
+    verbose: bool,
+}
+
+impl Ctx<'_> {
+    fn bump(&self, key: String, n: u64) {
+        *self.matrix.lock().unwrap().entry(key).or_insert(0) += n;
+    }
+}
+
+fn shape_of(obs: &Obs, v2: bool, arrow: &arrow_schema::Schema) -> Shape {
+    match obs {
+        Obs::Absent => Shape::absent(),
+        Obs::Table {
+            versions,
+            opened,
+            per_version,
+            ..
+        } => Shape::from_obs(&per_version[opened], *opened, versions.clone(), v2, arrow),
+    }
+}
+
+async fn live_schema(p: &Proc) -> Option<(arrow_schema::Schema, bool)> {
+    let ds = p.actor.open(URI).await.ok()?;
+    let arrow: arrow_schema::Schema = ds.schema().into();
+    let v2 = ds.manifest_location().naming_scheme == lance_table::io::commit::ManifestNamingScheme::V2;
+    Some((arrow, v2))
+}
+
+fn witness_base(ctx: &Ctx, idx: u64, handler: HandlerKind, history: &[String], final_op: &Op) -> serde_json::Value {
+    json!({
+        "seed": ctx.seed, "case": idx, "handler": handler.name(),
+        "history": history, "final_op": final_op.describe(),
+        "replay": format!("e_crash C01 --seed {} --case {}", ctx.seed, idx),
+    })
+}
+
+/// One scenario: history (with plain-history monitors), dry run, crash enumeration.
+async fn scenario(ctx: &Ctx<'_>, idx: u64) {
+    let report = ctx.report;
+    let mut rng = Rng::for_case(ctx.seed, idx);
+    let nh = HandlerKind::SAFE.len() as u64;
+    let nk = ops::FINAL_KINDS.len() as u64;
+    let mut handler = HandlerKind::SAFE[((idx + ctx.seed) % nh) as usize];
+    let mut want_kind = ops::FINAL_KINDS[(((idx / nh) + ctx.seed.wrapping_mul(7)) % nk) as usize];
+    if let Some(h) = &ctx.only_handler {
+        if let Some(k) = HandlerKind::SAFE.iter().find(|k| k.name() == h) {
+            handler = *k;
+        }
+    }
+    if let Some(k) = &ctx.only_kind {
+        if let Some(k) = ops::FINAL_KINDS.iter().find(|x| **x == k.as_str()) {
+            want_kind = k;
+        }
+    }
+    let env = Env::new(handler);
+    let mut ids = IdAlloc::new(0);
+    let mut history: Vec<String> = vec![];
+    let mut cur = Obs::Absent;
+    let mut cur_validate_ok = true;
+    let mut step_no = 0usize;
+
+    // ---------------- pre-history with plain monitors ----------------
+    if want_kind != "create" {
+        let n_steps = rng.urange(2, 6);
+        for s in 0..n_steps {
+            let shape = if s == 0 {
+                Shape::absent()
+            } else {
+                let Some((arrow, v2)) = live_schema(&env.proc(40)).await else {
+                    report.harness_error("cannot reopen the table during history generation");
+                    return;
+                };
+                shape_of(&cur, v2, &arrow)
+            };
+            let op = if s == 0 {
+                let force_v2 = if want_kind == "detached_append" { Some(true) } else { None };
+                ops::gen_create(&mut rng, &mut ids, force_v2)
+            } else {
+                match ops::gen_step(&mut rng, &shape, &mut ids) {
+                    Some(op) => op,
+                    None => continue,
+                }
+            };
+            step_no += 1;
+            let pre_paths: BTreeSet<String> = env.world.list_paths().await.into_iter().collect();
+            let log_from = env.world.log_len();
+            let ext_from = env.ext.log.lock().unwrap().len();
+            let w = env.proc(1);
+            let res = guarded(ops::apply(&op, &w.actor, URI), OP_TIMEOUT_S).await;
+            let res: Result<(), String> = match res {
+                Err(GuardFail::Timeout) => {
+                    report.inconclusive(&format!("case {idx}: history step {} timed out", op.describe()));
+                    return;
+                }
+                Err(GuardFail::Panic(m)) => Err(format!("panic: {m}")),
+                Ok(r) => r.map_err(|e| e.to_string()),
+            };
+            history.push(format!(
+                "{}{}",
+                op.describe(),
+                if let Err(e) = &res {
+                    format!(" -> Err({})", e.chars().take(120).collect::<String>())
+                } else {
+                    String::new()
+                }
+            ));
+            let observed = observe(&env.proc(50 + step_no), &env.world, URI).await;
+            let (obs, extra) = match observed {
+                Ok(x) => x,
+                Err(e) => {
+                    report.violation(
+                        "plain-history-table-unreadable",
+                        "after a fault-free operation the table cannot be read back",
+                        json!({"base": witness_base(ctx, idx, handler, &history, &op), "error": e}),
+                    );
+                    return;
+                }
+            };
+            report.count("history_steps_checked", 1);
+            if let Some(v) = plain_invariants(&obs) {
+                report.violation(
+                    &v.sig,
+                    &v.what,
+                    json!({"base": witness_base(ctx, idx, handler, &history, &op), "observed": obs.brief()}),
+                );
+                return;
+            }
+            let prev_n = cur.latest().unwrap_or(0);
+            let new_n = obs.latest().unwrap_or(0);
+            match &res {
+                Ok(()) => {
+                    let fine = if op.is_detached() {
+                        report.count("detached_commits_checked", 1);
+                        obs == cur
+                    } else if new_n == prev_n + 1 {
+                        true
+                    } else {
+                        new_n == prev_n && op.may_noop() && obs == cur
+                    };
+                    if !fine {
+                        report.violation(
+                            if op.is_detached() {
+                                "detached-commit-changed-visible-state"
+                            } else {
+                                "successful-write-did-not-make-exactly-latest-plus-one"
+                            },
+                            &format!(
+                                "{} returned Ok on latest={prev_n}; afterwards latest={new_n}",
+                                op.describe()
+                            ),
+                            json!({"base": witness_base(ctx, idx, handler, &history, &op),
+                                   "before": cur.brief(), "after": obs.brief()}),
+                        );
+                        return;
+                    }
+                    // store-log ordering: everything the new manifest references existed before it
+                    if new_n == prev_n + 1 {
+                        let ev = env.world.events_since(log_from);
+                        let xev: Vec<ExtEvent> = env.ext.events()[ext_from..].to_vec();
+                        match commit_point(handler, &ev, &xev, new_n, false) {
+                            None => {
+                                report.violation(
+                                    "new-version-without-logged-manifest-create",
+                                    "a new version is visible but the store log has no applied create of its manifest",
+                                    json!({"base": witness_base(ctx, idx, handler, &history, &op)}),
+                                );
+                                return;
+                            }
+                            Some((t, what)) => {
+                                if let Some(x) = &extra {
+                                    let bad = refs_not_existing_before(&x.refs, &pre_paths, &ev, t, handler == HandlerKind::External);
+                                    report.count("manifest_refs_checked", (x.refs.files.len() + x.refs.index_prefixes.len()) as u64);
+                                    if !bad.is_empty() {
+                                        report.violation(
+                                            "manifest-visible-before-referenced-object",
+                                            "a manifest became visible before an object it references existed",
+                                            json!({"base": witness_base(ctx, idx, handler, &history, &op),
+                                                   "commit_event": what, "missing_at_commit": bad}),
+                                        );
+                                        return;
+                                    }
+                                }
+                            }
+                        }
+                    }
+                }
+                Err(e) => {
+                    report.rejected();
+                    if obs != cur {
+                        report.violation(
+                            "failed-write-left-effect",
+                            &format!("{} failed ({e}) but the visible state changed: {}", op.describe(), obs.diff(&cur)),
+                            json!({"base": witness_base(ctx, idx, handler, &history, &op),
+                                   "before": cur.brief(), "after": obs.brief()}),
+                        );
+                        return;
+                    }
+                }
+            }
+            if let Some(x) = &extra {
+                cur_validate_ok = x.validate.is_ok();
+                if let Err(e) = &x.validate {
+                    report.count("validate_failed_on_plain_history", 1);
+                    if ctx.verbose {
+                        eprintln!("case {idx}: validate failed on plain history: {e}");
+                    }
+                }
+                let paths = env.world.list_paths().await;
+                let missing = missing_refs(&x.refs, &paths);
+                if !missing.is_empty() {
+                    report.violation(
+                        "visible-manifest-references-missing-object",
+                        "the latest manifest references objects that are not in the store",
+                        json!({"base": witness_base(ctx, idx, handler, &history, &op), "missing": missing}),
+                    );
+                    return;
+                }
+            }
+            cur = obs;
+            if !report.time_left() {
+                return;
+            }
+        }
+        if matches!(cur, Obs::Absent) {
+            return;
+        }
+    }
+
+    // ---------------- final operation ----------------
+    let shape = match &cur {
+        Obs::Absent => Shape::absent(),
+        _ => {
+            let Some((arrow, v2)) = live_schema(&env.proc(41)).await else {
+                report.harness_error("cannot reopen the table before the final operation");
+                return;
+            };
+            shape_of(&cur, v2, &arrow)
+        }
+    };
+    let mut final_op = None;
+    let start = ops::FINAL_KINDS.iter().position(|k| *k == want_kind).unwrap_or(0);
+    for j in 0..ops::FINAL_KINDS.len() {
+        let k = ops::FINAL_KINDS[(start + j) % ops::FINAL_KINDS.len()];
+        if let Some(op) = ops::gen_kind(k, &mut rng, &shape, &mut ids) {
+            final_op = Some(op);
+            break;
+        }
+    }
+    let Some(final_op) = final_op else { return };
+    let pre = cur.clone();
+    let snap = env.snapshot().await;
+    let pre_paths: BTreeSet<String> = snap.objs.keys().cloned().collect();
+    let pre_n = pre.latest().unwrap_or(0);
+    let target = pre_n + 1;
+    let detached = final_op.is_detached();
+
+    // dry run
+    let env_d = Env::restore(handler, &snap).await;
+    let w = env_d.proc(1);
+    w.actor.store.reset_counters();
+    let res = guarded(ops::apply(&final_op, &w.actor, URI), OP_TIMEOUT_S).await;
+    let res = match res {
+        Err(GuardFail::Timeout) => {
+            report.inconclusive(&format!("case {idx}: dry run of {} timed out", final_op.describe()));
+            return;
+        }
+        Err(GuardFail::Panic(m)) => Err(format!("panic: {m}")),
+        Ok(r) => r.map_err(|e| e.to_string()),
+    };
+    let m = w.actor.store.mutating_calls();
+    let dry_events = env_d.world.events();
+    let dry_ext = env_d.ext.events();
+    let (post, post_extra) = match observe(&env_d.proc(2), &env_d.world, URI).await {
+        Ok(x) => x,
+        Err(e) => {
+            report.violation(
+                "plain-history-table-unreadable",
+                "after a fault-free operation the table cannot be read back",
+                json!({"base": witness_base(ctx, idx, handler, &history, &final_op), "error": e}),
+            );
+            return;
+        }
+    };
+    if let Err(e) = &res {
+        report.rejected();
+        ctx.bump(format!("rejected_final.{}", final_op.kind()), 1);
+        if ctx.verbose {
+            eprintln!("case {idx}: final op {} rejected: {e}", final_op.describe());
+        }
+        if post != pre {
+            report.violation(
+                "failed-write-left-effect",
+                &format!("{} failed ({e}) but the visible state changed: {}", final_op.describe(), post.diff(&pre)),
+                json!({"base": witness_base(ctx, idx, handler, &history, &final_op),
+                       "before": pre.brief(), "after": post.brief()}),
+            );
+        }
+        return;
+    }
+    if let Some(v) = plain_invariants(&post) {
+        report.violation(&v.sig, &v.what, json!({"base": witness_base(ctx, idx, handler, &history, &final_op), "observed": post.brief()}));
+        return;
+    }
+    let post_n = post.latest().unwrap_or(0);
+    let dry_commit = commit_point(handler, &dry_events, &dry_ext, target, detached);
+    if detached {
+        report.count("detached_commits_checked", 1);
+        if post != pre {
+            report.violation(
+                "detached-commit-changed-visible-state",
+                &format!("detached commit changed what readers see: {}", post.diff(&pre)),
+                json!({"base": witness_base(ctx, idx, handler, &history, &final_op), "before": pre.brief(), "after": post.brief()}),
+            );
+            return;
+        }
+    } else if post_n == pre_n {
+        // no commit (e.g. nothing to compact)
+        if post != pre || !final_op.may_noop() {
+            report.violation(
+                "successful-write-did-not-make-exactly-latest-plus-one",
+                &format!("{} returned Ok on latest={pre_n} and made no version", final_op.describe()),
+                json!({"base": witness_base(ctx, idx, handler, &history, &final_op), "before": pre.brief(), "after": post.brief()}),
+            );
+        }
+        report.count("noop_final_ops", 1);
+        return;
+    } else if post_n != target {
+        report.violation(
+            "successful-write-did-not-make-exactly-latest-plus-one",
+            &format!("{} returned Ok on latest={pre_n}; afterwards latest={post_n}", final_op.describe()),
+            json!({"base": witness_base(ctx, idx, handler, &history, &final_op), "before": pre.brief(), "after": post.brief()}),
+        );
+        return;
+    }
+    let Some((t_commit, commit_what)) = dry_commit else {
+        report.violation(
+            "new-version-without-logged-manifest-create",
+            "a new version is visible but the store log has no applied create of its manifest",
+            json!({"base": witness_base(ctx, idx, handler, &history, &final_op)}),
+        );
+        return;
+    };
+    if let Some(x) = &post_extra {
+        if !detached {
+            let bad = refs_not_existing_before(&x.refs, &pre_paths, &dry_events, t_commit, handler == HandlerKind::External);
+            report.count("manifest_refs_checked", (x.refs.files.len() + x.refs.index_prefixes.len()) as u64);
+            if !bad.is_empty() {
+                report.violation(
+                    "manifest-visible-before-referenced-object",
+                    "a manifest became visible before an object it references existed",
+                    json!({"base": witness_base(ctx, idx, handler, &history, &final_op),
+                           "commit_event": commit_what, "missing_at_commit": bad}),
+                );
+                return;
+            }
+        }
+    }
+    let post_validate_ok = post_extra.as_ref().map(|x| x.validate.is_ok()).unwrap_or(true);
+    if !post_validate_ok {
+        report.count("validate_failed_on_plain_history", 1);
+    }
+
+    // crash points
+    let mut points: Vec<(CrashPoint, String)> = vec![];
+    for k in 1..=m {
+        let label = dry_events
+            .iter()
+            .find(|e| e.actor == 1 && e.mut_index == Some(k))
+            .map(|e| {
+                format!(
+                    "{} {}{}",
+                    e.kind.name(),
+                    classify_path(&e.path),
+                    e.to.as_ref().map(|t| format!(" => {}", classify_path(t))).unwrap_or_default()
+                )
+            })
+            .unwrap_or_else(|| format!("mutating call #{k}"));
+        for fault in [Fault::FailBefore, Fault::LostReply] {
+            points.push((CrashPoint::Store { k, fault }, label.clone()));
+        }
+    }
+    if let Some(c) = &w.ext {
+        for op in [ExtOp::PutIfNotExists, ExtOp::PutIfExists] {
+            for nth in 1..=c.calls(op) {
+                for fault in [Fault::FailBefore, Fault::LostReply] {
+                    points.push((CrashPoint::Ext { op, nth, fault }, format!("ext.{}#{nth}", op.name())));
+                }
+            }
+        }
+    }
+    report.count("scenarios", 1);
+    ctx.bump(format!("scenarios.{}.{}", handler.name(), final_op.kind()), 1);
+    *ctx.m_hist.lock().unwrap().entry(m).or_insert(0) += 1;
+    let shape_brief = shape.brief();
+    let mut outcomes: Vec<String> = vec![];
+    let mut complete = true;
+
+    for (cp, label) in &points {
+        if !report.time_left() {
+            complete = false;
+            break;
+        }
+        let env_c = Env::restore(handler, &snap).await;
+        let w = env_c.proc(1);
+        w.actor.store.reset_counters();
+        match cp {
+            CrashPoint::Store { k, fault } => w.actor.store.set_plan(FaultPlan {
+                crash_at: Some((*k, *fault)),
+                ..Default::default()
+            }),
+            CrashPoint::Ext { op, nth, fault } => w.ext.as_ref().unwrap().set_faults(vec![ExtFault {
+                op: *op,
+                nth: *nth,
+                fault: *fault,
+                crash: true,
+            }]),
+        }
+        let r = guarded(ops::apply(&final_op, &w.actor, URI), OP_TIMEOUT_S).await;
+        let (res_ok, res_txt) = match r {
+            Err(GuardFail::Timeout) => {
+                report.inconclusive(&format!(
+                    "case {idx}: {} hung after crash point {label}/{}",
+                    final_op.describe(),
+                    cp.fault_name()
+                ));
+                report.count("crash_runs_timed_out", 1);
+                continue;
+            }
+            Err(GuardFail::Panic(msg)) => {
+                report.count("panics_after_injected_crash", 1);
+                (false, format!("panic: {msg}"))
+            }
+            Ok(Ok(())) => (true, "Ok".to_string()),
+            Ok(Err(e)) => (false, e.to_string().chars().take(160).collect()),
+        };
+        let reached = w.actor.store.is_crashed() || w.ext.as_ref().map(|c| c.is_dead()).unwrap_or(false);
+        if !reached {
+            report.count("crash_point_not_reached", 1);
+        }
+        let events = env_c.world.events();
+        let xevents = env_c.ext.events();
+        report.count("store_events_observed", events.len() as u64);
+        let commit = commit_point(handler, &events, &xevents, target, detached);
+        let commit_applied = commit.is_some();
+        let wit = |extra: serde_json::Value| {
+            json!({
+                "base": witness_base(ctx, idx, handler, &history, &final_op),
+                "crash_point": label, "fault": cp.fault_name(), "crash_point_detail": format!("{cp:?}"),
+                "op_result": res_txt, "commit_point_applied": commit_applied,
+                "writer_log": events.iter().filter(|e| e.actor == 1 && e.kind.is_mutating()).map(|e| e.brief()).collect::<Vec<_>>(),
+                "ext_log": xevents.iter().map(|e| e.brief()).collect::<Vec<_>>(),
+                "pre": pre.brief(), "post": post.brief(), "detail": extra,
+            })
+        };
+        let observed = observe(&env_c.proc(2), &env_c.world, URI).await;
+        let class = format!("{}/{}/{}", handler.name(), final_op.kind(), cp.fault_name());
+        let (obs, extra) = match observed {
+            Ok(x) => x,
+            Err(e) => {
+                report.violation(
+                    &format!("reopen-failed-after-crash:{class}"),
+                    "after a crashed write a freshly started reader cannot read the table",
+                    wit(json!({"error": e})),
+                );
+                report.case(Some(fnv(format!("{class}|{label}|{shape_brief}").as_bytes())));
+                continue;
+            }
+        };
+        report.count("crash_runs", 1);
+        ctx.bump(format!("crash_runs.{}.{}", handler.name(), final_op.kind()), 1);
+        if let Obs::Table { per_version, .. } = &obs {
+            report.count("versions_compared", per_version.len() as u64);
+            report.count("rows_compared", per_version.values().map(|v| v.rows.len() as u64).sum());
+        }
+        if let Some(v) = judge(&pre, &post, &obs, commit_applied, res_ok, detached) {
+            report.violation(&format!("{}:{class}", v.sig), &v.what, wit(json!({"observed": obs.brief()})));
+        }
+        if let Some(x) = &extra {
+            let paths = env_c.world.list_paths().await;
+            let missing = missing_refs(&x.refs, &paths);
+            if !missing.is_empty() {
+                report.violation(
+                    &format!("visible-manifest-references-missing-object:{class}"),
+                    "after the crash the latest manifest references objects that are not in the store",
+                    wit(json!({"missing": missing})),
+                );
+            }
+            if let (Some((t, what)), false) = (&commit, detached) {
+                let bad = refs_not_existing_before(&x.refs, &pre_paths, &events, *t, handler == HandlerKind::External);
+                if !bad.is_empty() {
+                    report.violation(
+                        &format!("manifest-visible-before-referenced-object:{class}"),
+                        "a manifest became visible before an object it references existed",
+                        wit(json!({"commit_event": what, "missing_at_commit": bad})),
+                    );
+                }
+            }
+            if x.validate.is_err() && cur_validate_ok && post_validate_ok {
+                report.violation(
+                    &format!("validate-failed-after-crash:{class}"),
+                    "Dataset::validate() fails on the state a fresh reader sees after the crash",
+                    wit(json!({"validate": x.validate.clone().err()})),
+                );
+            }
+            report.count("debris_staging_manifests", x.staging.len() as u64);
+        }
+        // non-trivial: an object of the operation exists in the store, or the commit point itself
+        let now_paths = env_c.world.list_paths().await;
+        let new_objects = now_paths.iter().filter(|p| !pre_paths.contains(*p)).count();
+        let is_commit_call = match cp {
+            CrashPoint::Store { k, .. } => dry_events.iter().any(|e| {
+                e.actor == 1
+                    && e.mut_index == Some(*k)
+                    && (final_manifest_version(BASE, e.dest()) == Some(target)
+                        || matches!(vers_file(BASE, e.dest()), Some(VersFile::Detached(_))))
+            }),
+            CrashPoint::Ext { op, .. } => *op == ExtOp::PutIfNotExists,
+        };
+        let nontrivial = new_objects > 0 || is_commit_call;
+        if commit_applied {
+            report.count("crash_runs_after_commit_point", 1);
+        } else {
+            report.count("crash_runs_before_commit_point", 1);
+        }
+        if is_commit_call {
+            report.count("crash_runs_at_commit_call", 1);
+        }
+        outcomes.push(format!(
+            "{label} [{}] -> {} ({})",
+            cp.fault_name(),
+            if commit_applied { "post" } else { "pre" },
+            if res_ok { "op Ok" } else { "op Err" }
+        ));
+        report.case(if nontrivial {
+            Some(fnv(format!("{class}|{label}|{shape_brief}").as_bytes()))
+        } else {
+            None
+        });
+    }
+    if complete {
+        report.count("scenarios_fully_enumerated", 1);
+    } else {
+        report.count("scenarios_truncated_by_budget", 1);
+    }
+    if report.want_sample() && complete {
+        report.sample(json!({
+            "case": idx, "handler": handler.name(), "history": history,
+            "pre_state": shape_brief, "final_op": final_op.describe(),
+            "mutating_calls_M": m, "crash_points": points.len(),
+            "commit_point": commit_what, "outcomes": outcomes,
+        }));
+    }
+}
+
+/// `--selftest`: feed the oracle corrupted observations of a real scenario; it must object.
+fn selftest(args: &Args) -> i32 {
+    let rt = tokio::runtime::Builder::new_current_thread().enable_all().build().unwrap();
+    let ok = rt.block_on(async {
+        let mut rng = Rng::for_case(args.seed, 0);
+        let mut ids = IdAlloc::new(0);
+        let env = Env::new(HandlerKind::CondPut);
+        let w = env.proc(1);
+        let create = ops::gen_create(&mut rng, &mut ids, Some(false));
+        ops::apply(&create, &w.actor, URI).await.expect("create");
+        let (pre, _) = observe(&env.proc(2), &env.world, URI).await.expect("observe");
+        let (arrow, v2) = live_schema(&env.proc(3)).await.unwrap();
+        let shape = shape_of(&pre, v2, &arrow);
+        let app = ops::gen_kind("append", &mut rng, &shape, &mut ids).unwrap();
+        ops::apply(&app, &w.actor, URI).await.expect("append");
+        let (post, _) = observe(&env.proc(4), &env.world, URI).await.expect("observe");
+        let mut fails = vec![];
+        // sound on clean inputs
+        if judge(&pre, &post, &pre, false, false, false).is_some() {
+            fails.push("clean pre flagged");
+        }
+        if judge(&pre, &post, &post, true, true, false).is_some() {
+            fails.push("clean post flagged");
+        }
+        // 1. drop a row from the observed latest version
+        let mut o = post.clone();
+        if let Obs::Table { per_version, opened, .. } = &mut o {
+            let v = per_version.get_mut(opened).unwrap();
+            let k = *v.rows.keys().next().unwrap();
+            v.rows.remove(&k);
+        }
+        if judge(&pre, &post, &o, true, false, false).is_none() {
+            fails.push("dropped row not flagged");
+        }
+        // 2. partial visibility: version N+1 listed but latest still N
+        let mut o = post.clone();
+        if let Obs::Table { latest_id, .. } = &mut o {
+            *latest_id -= 1;
+        }
+        if judge(&pre, &post, &o, true, false, false).is_none() {
+            fails.push("stale latest not flagged");
+        }
+        // 3. post state visible although the commit point was not applied
+        if judge(&pre, &post, &post, false, false, false).is_none() {
+            fails.push("post without commit not flagged");
+        }
+        // 4. pre state after the commit point
+        if judge(&pre, &post, &pre, true, false, false).is_none() {
+            fails.push("pre after commit not flagged");
+        }
+        // 5. Ok without commit
+        if judge(&pre, &post, &pre, false, true, false).is_none() {
+            fails.push("ok without commit not flagged");
+        }
+        // 6. a hole in the version list
+        let mut o = post.clone();
+        if let Obs::Table { versions, .. } = &mut o {
+            versions.remove(0);
+        }
+        if plain_invariants(&o).is_none() {
+            fails.push("hole in versions not flagged");
+        }
+        // 7. changed cell in an old version
+        let mut o = pre.clone();
+        if let Obs::Table { per_version, .. } = &mut o {
+            let v = per_version.get_mut(&1).unwrap();
+            let k = *v.rows.keys().next().unwrap();
+            v.rows.get_mut(&k).unwrap()[0] = vmon::table::Cell::Int(-77);
+        }
+        if judge(&pre, &post, &o, false, false, false).is_none() {
+            fails.push("changed cell not flagged");
+        }
+        // 8. referenced object missing
+        let refs = Refs { files: vec!["t/data/nope.lance".into()], index_prefixes: vec![] };
+        if missing_refs(&refs, &env.world.list_paths().await).is_empty() {
+            fails.push("missing ref not flagged");
+        }
+        if refs_not_existing_before(&refs, &BTreeSet::new(), &env.world.events(), u64::MAX, false).is_empty() {
+            fails.push("ref ordering not flagged");
+        }
+        if fails.is_empty() {
+            println!("SELFTEST C01 ok: oracle flagged 8/8 corrupted observations and accepted 2/2 clean ones");
+            true
+        } else {
+            println!("SELFTEST C01 FAILED: {fails:?}");
+            false
+        }
+    });
+    if ok {
+        0
+    } else {
+        2
+    }
+}
+
+pub fn run(args: &Args) -> i32 {
+    if args.extra.contains_key("selftest") {
+        return selftest(args);
+    }
+    let report = Report::new(
+        args,
+        "fault_enumeration",
+        "Scenario = seeded random pre-history (2-6 public write ops, monitors after every step) + one final write op; \
+         the final op is re-run from the restored pre-state once per crash point: every k-th mutating storage call x \
+         {effect lost, effect applied + reply lost} (+ every external-store write for the external handler), over 4 \
+         commit handlers. A case is one crash run; it is non-trivial iff after the crash at least one object written \
+         by the operation exists in the store or the crashed call is the commit point itself; distinct = \
+         (handler, op kind, fault, classified crashed call, pre-state shape).",
+        (68, 1000),
+    )
+    .with_min_nontrivial(20);
+    let ctx = Ctx {
+        report: &report,
+        seed: args.seed,
+        matrix: Mutex::new(BTreeMap::new()),
+        m_hist: Mutex::new(BTreeMap::new()),
+        only_kind: args.extra.get("kind").cloned(),
+        only_handler: args.extra.get("handler").cloned(),
+        verbose: args.extra.contains_key("verbose"),
+    };
+    report.assume("object_store::memory::InMemory implements put(Create), rename_if_not_exists and copy atomically");
+    report.assume("a crash is modelled at storage-call granularity: the k-th mutating call (and every later call) of the writer fails, with the effect of call k either lost or applied");
+    report.assume("the lock of the lock-based handler and the external manifest store are harness mocks (in-process, linearizable); only Lance's use of them is under test");
+    let single: Option<u64> = args.extra.get("case").and_then(|s| s.parse().ok());
+    let max_cases: u64 = args.tier.pick(600, 60_000);
+    let next = AtomicU64::new(0);
+    let threads = if single.is_some() { 1 } else { 16 };
+    run_threads(threads, |_| {
+        let ctx = &ctx;
+        let next = &next;
+        Box::pin(async move {
+            if let Some(c) = single {
+                scenario(ctx, c).await;
+                return;
+            }
+            loop {
+                let idx = next.fetch_add(1, Ordering::SeqCst);
+                if idx >= max_cases || !ctx.report.time_left() {
+                    break;
+                }
+                scenario(ctx, idx).await;
+            }
+        })
+    });
+    let matrix = ctx.matrix.lock().unwrap().clone();
+    let mut scen: BTreeMap<String, u64> = BTreeMap::new();
+    let mut runs: BTreeMap<String, u64> = BTreeMap::new();
+    let mut rejected: BTreeMap<String, u64> = BTreeMap::new();
+    let mut per_handler: BTreeMap<String, u64> = BTreeMap::new();
+    let mut per_kind: BTreeMap<String, u64> = BTreeMap::new();
+    for (k, v) in &matrix {
+        let parts: Vec<&str> = k.split('.').collect();
+        match parts[0] {
+            "scenarios" => {
+                scen.insert(format!("{}/{}", parts[1], parts[2]), *v);
+            }
+            "crash_runs" => {
+                runs.insert(format!("{}/{}", parts[1], parts[2]), *v);
+                *per_handler.entry(parts[1].to_string()).or_insert(0) += v;
+                *per_kind.entry(parts[2].to_string()).or_insert(0) += v;
+            }
+            "rejected_final" => {
+                rejected.insert(parts[1].to_string(), *v);
+            }
+            _ => {}
+        }
+    }
+    report.set("scenarios_by_handler_and_op", json!(scen));
+    report.set("crash_runs_by_handler", json!(per_handler));
+    report.set("crash_runs_by_op", json!(per_kind));
+    report.set("rejected_final_ops_by_kind", json!(rejected));
+    report.set(
+        "mutating_calls_per_final_op_histogram",
+        json!(ctx.m_hist.lock().unwrap().iter().map(|(k, v)| (k.to_string(), *v)).collect::<BTreeMap<_, _>>()),
+    );
+    report.set(
+        "level_note",
+        json!("exhaustive over the crash points of each enumerated scenario (scenarios_fully_enumerated); scenarios themselves are sampled. Out of reach: real S3/DynamoDB semantics, power-loss durability of a local filesystem."),
+    );
+    report.exhaustive(false);
+    report.finish()
 }
